@@ -60,6 +60,7 @@ type inst struct {
 	scope    int
 	desc     string
 	twinOf   int    // >= 0: same name and kind as that instrument, other scope, different description
+	split    bool   // measurements go to two attribute sets (inst=iN and inst=iNb): two series of one family
 	created  uint64 // stamp at which creation returned
 	nextBit  int
 	ci       metric.Int64Counter
@@ -72,6 +73,7 @@ type inst struct {
 
 type measOp struct {
 	in       *inst
+	sub      string // "" or "b": which of the instrument's attribute sets
 	bit      int
 	inv, ret uint64
 }
@@ -243,7 +245,8 @@ func (engine) Body(r *simdrv.Run) {
 	r.Res.Config["options"] = strings.Join(optDesc, ",")
 	var idesc []string
 	for _, in := range w.insts {
-		idesc = append(idesc, fmt.Sprintf("%s:%s[%s]@scope%d(twin of %d)", in.kind, in.name, in.unit, in.scope, in.twinOf))
+		in.split = r.Cfg(3) == 0
+		idesc = append(idesc, fmt.Sprintf("%s:%s[%s]@scope%d(twin of %d, split %v)", in.kind, in.name, in.unit, in.scope, in.twinOf, in.split))
 	}
 	r.Res.Config["instruments"] = strings.Join(idesc, " ")
 	r.Res.Config["recorders"] = fmt.Sprintf("%+v", recPlans)
@@ -330,11 +333,15 @@ func (engine) Body(r *simdrv.Run) {
 				if in.nextBit >= 30 || (in.ci == nil && in.cf == nil && in.ui == nil && in.gi == nil && in.hi == nil) {
 					continue
 				}
-				mo := &measOp{in: in, bit: in.nextBit, inv: sim.Stamp()}
+				sub := ""
+				if in.split && sim.Draw(2) == 1 {
+					sub = "b"
+				}
+				mo := &measOp{in: in, sub: sub, bit: in.nextBit, inv: sim.Stamp()}
 				in.nextBit++
 				w.meas = append(w.meas, mo)
 				v := int64(1) << mo.bit
-				attrs := metric.WithAttributes(attribute.String("inst", fmt.Sprintf("i%d", in.idx)))
+				attrs := metric.WithAttributes(attribute.String("inst", fmt.Sprintf("i%d%s", in.idx, sub)))
 				ctx := context.Background()
 				switch in.kind {
 				case "counter_i":
@@ -349,7 +356,7 @@ func (engine) Body(r *simdrv.Run) {
 					in.hi.Record(ctx, v, attrs)
 				}
 				mo.ret = sim.Stamp()
-				r.Log("%d add i%d bit=%d task=%s (invoked %d)", mo.ret, in.idx, mo.bit, name, mo.inv)
+				r.Log("%d add i%d%s bit=%d task=%s (invoked %d)", mo.ret, in.idx, sub, mo.bit, name, mo.inv)
 				r.Res.Ops++
 			}
 		})
@@ -475,6 +482,18 @@ func (engine) Body(r *simdrv.Run) {
 		r.Violate(prop, "panic", "panic-in-collect", "the exporter's Collect panicked inside Gather: %s", p)
 	}
 	var lastBy = map[string]*scrape{}
+	// the series an instrument can expose: one per attribute set it records with
+	type serKey struct {
+		in  *inst
+		sub string
+	}
+	var series []serKey
+	for _, in := range w.insts {
+		series = append(series, serKey{in, ""})
+		if in.split {
+			series = append(series, serKey{in, "b"})
+		}
+	}
 	for _, sc := range w.scrapes {
 		if sc.ret == 0 {
 			continue
@@ -513,7 +532,9 @@ func (engine) Body(r *simdrv.Run) {
 		if !noScope && anyData {
 			scopesWithData := map[int]bool{}
 			for _, in := range w.insts {
-				if _, ok := sc.vals[fmt.Sprintf("i%d", in.idx)]; ok {
+				_, ok := sc.vals[fmt.Sprintf("i%d", in.idx)]
+				_, okb := sc.vals[fmt.Sprintf("i%db", in.idx)]
+				if ok || okb {
 					scopesWithData[in.scope] = true
 				}
 			}
@@ -521,12 +542,12 @@ func (engine) Body(r *simdrv.Run) {
 				r.Violate(prop, "scope-info", "scope-info", "scrape %d..%d exposes %d otel_scope_info series for %d scopes with data", sc.inv, sc.ret, sc.scopes, len(scopesWithData))
 			}
 		}
-		for _, in := range w.insts {
-			id := fmt.Sprintf("i%d", in.idx)
+		for _, ser := range series {
+			in, id := ser.in, fmt.Sprintf("i%d%s", ser.in.idx, ser.sub)
 			var must, may uint64
 			var lastMust, anyMay bool
 			for _, mo := range w.meas {
-				if mo.in != in {
+				if mo.in != in || mo.sub != ser.sub {
 					continue
 				}
 				if mo.ret != 0 && mo.ret < sc.inv {
